@@ -6626,10 +6626,33 @@ let mk_fuzzy l d =
 let mk_boost l f =
   E ((VExp l), Boost, VNil, f, (Zpos XH))
 
+(** val spelling : toktype -> char list **)
+
+let spelling = function
+| TEqual -> '='::[]
+| TGreater -> '>'::[]
+| TLess -> '<'::[]
+| TColon -> ':'::[]
+| TPlus -> '+'::[]
+| TMinus -> '-'::[]
+| TTilde -> '~'::[]
+| TCarrot -> '^'::[]
+| TNot -> 'N'::('O'::('T'::[]))
+| TAnd -> 'A'::('N'::('D'::[]))
+| TOr -> 'O'::('R'::[])
+| TRParen -> ')'::[]
+| TLParen -> '('::[]
+| TLCurly -> '{'::[]
+| TRCurly -> '}'::[]
+| TTO -> 'T'::('O'::[])
+| TLSquare -> '['::[]
+| TRSquare -> ']'::[]
+| _ -> []
+
 (** val tk : toktype -> token **)
 
 let tk t =
-  { typ = t; val0 = [] }
+  { typ = t; val0 = (spelling t) }
 
 (** val cmp_op0 : token -> bool -> operator **)
 
